@@ -51,7 +51,13 @@ MESHES_QUICK = [dict(nx=3, ny=3, Lx=1.0, Ly=0.8, order=1, bc="none"),
 MESHES_MORE = [dict(nx=4, ny=4, Lx=2.0, Ly=1.5, order=2, bc="none"),
                dict(nx=3, ny=3, Lx=1.0, Ly=1.0, order=3, bc="roller"),
                dict(nx=6, ny=4, Lx=3.0, Ly=1.0, order=1, bc="roller"),
-               dict(nx=3, ny=4, Lx=0.5, Ly=2.0, order=2, bc="clamped")]
+               dict(nx=3, ny=4, Lx=0.5, Ly=2.0, order=2, bc="clamped"),
+               dict(nx=5, ny=3, Lx=2.0, Ly=0.5, order=2, bc="sym"),
+               dict(nx=2, ny=2, Lx=1.0, Ly=1.0, order=3, bc="none"),
+               dict(nx=5, ny=3, Lx=1.6, Ly=0.8, order=1, bc="clamped"),
+               dict(nx=4, ny=2, Lx=1.0, Ly=0.25, order=2, bc="none"),
+               dict(nx=2, ny=5, Lx=0.3, Ly=3.0, order=1, bc="sym"),
+               dict(nx=3, ny=3, Lx=0.01, Ly=0.02, order=2, bc="roller")]
 
 
 def fr(q):
@@ -169,7 +175,7 @@ class Model:
             gn = float(onp.linalg.norm(g))
             if best is None or gn < best[0]:
                 best = (gn, x.copy(), sc)
-            if gn == 0.0 or (it >= 1 and gn <= 1e-13 * sc) or (it >= 3 and gn <= 1e-11 * sc and gn >= 0.5 * prev):
+            if gn == 0.0 or (it >= 2 and gn <= 1e-13 * sc) or (it >= 3 and gn <= 1e-11 * sc and gn >= 0.5 * prev):
                 break
             prev = gn
             try:
@@ -404,6 +410,8 @@ def run_field(md, ftype, nsteps, seed, tid, minimiser="newton"):
     ev = [dict(op="Mass", sumM=mc["sumM"], sumEl=mc["sumEl"])]
     t, dtmin = 0.0, None
     lo, hi = (0.02, 20.0) if md.linear else (0.02, 1.0)
+    if ftype == "energy":
+        lo = 0.05         # keeps the rounding amplification eps |U| / (beta dt |V|) of correct() two orders below RT_EN
     for i in range(nsteps):
         dt = 10 ** rng.uniform(math.log10(lo), math.log10(hi)) / (om_ref if (not md.linear or rng.random() < 0.5) else om_hi)
         t += dt
@@ -505,7 +513,12 @@ def main(tier, replay=None):
         "mass: |sum M - rho*Lx*Ly*2| <= %g relative (Hessian of the library kinetic energy; compute_element_masses)" % RT_MASS,
         "modal amplitudes: |phi^T M X / scale - num/den| <= %g max(1, largest amplitude of the behaviour); num/den printed "
         "by TLC, NewmarkTrace.tla re-derives them (oracle_binding)" % RT_MODAL,
-        "generalized eigenpairs from scipy.linalg.eigh(K, M); structured rectangular meshes (area = Lx*Ly)",
+        "generalized eigenpairs from scipy.linalg.eigh(K, M); structured rectangular meshes (area = Lx*Ly) with aspect "
+        "ratio <= 10 (omega_max/omega_min <= ~60): there the rounding of the energy stays below 1e-2 of the allowance; on a "
+        "15:1 cantilever (omega_max/omega_min ~ 740) a throw-away probe saw it reach 0.4 of the allowance (cancellation in "
+        "correct's (U - Upred)/(beta dt^2) for dt << 1/omega_min), so such meshes are not part of the registered runs",
+        "the harness minimiser always performs two polishing Newton iterations: with one, the residual of the step solve "
+        "(not the library) caused energy wander of 1e-10 E_0 per large step",
         "dense sksparse shim (harness/shims) only to make optimism.Objective importable for the trust-region runs",
     ]
     rng = random.Random(common.seed())
@@ -528,6 +541,10 @@ def main(tier, replay=None):
             for a in ("DoPredict", "Minimise", "Correct", "ObserveMass"):
                 if acts.get(a, 0) == 0:
                     rep.machinery("design run: action %s never taken" % a)
+        if tier == "thorough":      # more parameter sets and step sizes (3 steps, tighter magnitude bound)
+            big = tlc.run("Newmark.tla", "Newmark_design_big.cfg", label="design-big", timeout=1800)
+            if tlc.require_ok(big, rep, "design-big"):
+                rep.add_tlc(big)
         # ---------------- behaviours
         gen = tlc.run("NewmarkGen.tla", "NewmarkGen_3.cfg" if tier == "quick" else "NewmarkGen_4.cfg", workers=1,
                       label="generate", timeout=1800)
@@ -542,7 +559,7 @@ def main(tier, replay=None):
         plan = []
         # ---------------- (B) modal replay plan
         free_models = [m for m in models if FREE_DIRS[m["bc"]]]
-        per = 1 if tier == "quick" else 2
+        per = 1 if tier == "quick" else 3
         for i, b in enumerate(behs):
             pool = models if int(b["start"]["k"]) == 1 else free_models
             for r in range(per):
@@ -556,8 +573,8 @@ def main(tier, replay=None):
         for b in rng.sample(cand, min(ntr, len(cand))):
             plan.append(dict(kind="modal", cfg=trcfg, beh=b, seed=rng.randrange(1 << 30), minimiser="tr"))
         # ---------------- (C) general-field plan
-        nE = 60 if tier == "quick" else 250
-        reps = 1 if tier == "quick" else 3
+        nE = 60 if tier == "quick" else 400
+        reps = 1 if tier == "quick" else 5
         field_pars = modal_pars + ([PARS["third"], PARS["hht"]] if tier == "thorough" else [])
         for m in models:
             for par in field_pars:
